@@ -2,23 +2,23 @@
 // CoinMapping / SmtMapping / TransactionSet / StakeSet methods are the ones PROVED in units `coins`, `smtmap`,
 // `stakeset` against the raw-SMT prelude (same clause text, see contracts.py); in every other unit they are
 // assumed at call sites (modular verification: a caller sees the callee's contract, not its body).
-pub struct CoinsView { pub coins: IMap<CoinID, CoinDataHeight>, pub counts: IMap<Address, nat> }
 #[verifier::external_body] #[verifier::accept_recursive_types(C)]
 pub struct CoinMapping<C: ContentAddrStore> { _c: core::marker::PhantomData<C> }
 impl<C: ContentAddrStore> View for CoinMapping<C> { type V = CoinsView; uninterp spec fn view(&self) -> CoinsView; }
+impl<C: ContentAddrStore> CoinMapping<C> { pub uninterp spec fn wf(&self) -> bool; }
 impl<C: ContentAddrStore> Clone for CoinMapping<C> { #[verifier::external_body] fn clone(&self) -> (r: Self) ensures r == *self { unimplemented!() } }
 
 #[verifier::external_body] #[verifier::accept_recursive_types(C)] #[verifier::accept_recursive_types(K)] #[verifier::accept_recursive_types(V)]
 pub struct SmtMapping<C: ContentAddrStore, K, V> { _c: core::marker::PhantomData<(C, K, V)> }
-impl<C: ContentAddrStore, K, V> View for SmtMapping<C, K, V> { type V = IMap<K, V>; uninterp spec fn view(&self) -> IMap<K, V>; }
+impl<C: ContentAddrStore, K, V> View for SmtMapping<C, K, V> { type V = Map<K, V>; uninterp spec fn view(&self) -> Map<K, V>; }
 impl<C: ContentAddrStore, K, V> Clone for SmtMapping<C, K, V> { #[verifier::external_body] fn clone(&self) -> (r: Self) ensures r == *self { unimplemented!() } }
 
 #[verifier::external_body] pub struct TransactionSet { _p: u8 }
-impl View for TransactionSet { type V = IMap<TxHash, Transaction>; uninterp spec fn view(&self) -> IMap<TxHash, Transaction>; }
+impl View for TransactionSet { type V = Map<TxHash, Transaction>; uninterp spec fn view(&self) -> Map<TxHash, Transaction>; }
 impl Clone for TransactionSet { #[verifier::external_body] fn clone(&self) -> (r: Self) ensures r == *self { unimplemented!() } }
 
 pub type PoolMapping<C> = SmtMapping<C, PoolKey, PoolState>;
 
 #[verifier::external_body] pub struct StakeSet { _p: u8 }
-impl View for StakeSet { type V = IMap<TxHash, StakeDoc>; uninterp spec fn view(&self) -> IMap<TxHash, StakeDoc>; }
+impl View for StakeSet { type V = Map<TxHash, StakeDoc>; uninterp spec fn view(&self) -> Map<TxHash, StakeDoc>; }
 impl Clone for StakeSet { #[verifier::external_body] fn clone(&self) -> (r: Self) ensures r == *self { unimplemented!() } }
